@@ -231,7 +231,12 @@ def build_comp(c):
         return FD.BasisFunctionalData(basis, coefs)
     obs = c[1]
     arg = {int(l): A.DenseArgvals({"input_dim_0": cu.grid(_pts_of(r), r % 8)}) for l, r in obs}
-    val = {int(l): cu.obs_values([_pts_of(r)], r) for l, r in obs}
+    vobs = obs
+    if len(c) > 2 and c[2] == "rev":          # the values dictionary lists the same labels in another order
+        vobs = list(reversed(obs))
+    elif len(c) > 2 and c[2] == "rot":
+        vobs = obs[1:] + obs[:1]
+    val = {int(l): cu.obs_values([_pts_of(r)], r) for l, r in vobs}
     return FD.IrregularFunctionalData(A.IrregularArgvals(arg), V.IrregularValues(val))
 
 
@@ -260,9 +265,14 @@ def read_comp(x):
         return "B:" + cu.nv(rows), bad
     if isinstance(x, FD.IrregularFunctionalData):
         ent = []
-        if list(x.argvals.keys()) != list(x.values.keys()):
+        if set(x.argvals.keys()) != set(x.values.keys()):
             bad.append(f"labels of argvals {list(x.argvals.keys())} and values {list(x.values.keys())} differ")
-        for l, arr in x.values.items():
+        # observations are read BY LABEL, in the order of the sampling points (the two dictionaries may list the
+        # labels in different orders)
+        for l in x.argvals.keys():
+            if l not in x.values:
+                continue
+            arr = x.values[l]
             r = cu._rtag(arr)
             ent.append(f"{l}/{r}")
             if not np.array_equal(np.asarray(arr), cu.obs_values([_pts_of(r)], r)):
@@ -469,6 +479,25 @@ def gen_cat_permuted(rng: Rng):
         yield dict(kind="cat", base=base, how="permuted", tree=tree, perm=perm)
 
 
+def _vorder_cases():
+    """In every run: irregular pieces whose argvals and values dictionaries list the same labels in DIFFERENT orders
+    (user-built, or an arithmetic result of such an object), through selection, iteration and concatenation."""
+    for vo in ("rev", "rot"):
+        a = ["I", [[0, 10], [1, 11], [2, 12]], vo]
+        b = ["I", [[0, 20], [1, 21]], vo]
+        plain = ["I", [[0, 30], [1, 31]]]
+        for ix in (["i", 0], ["i", -1], ["s", 1, None, None], ["s", None, None, -1], ["a", [2, 0]], ["m", [True, False, True]]):
+            yield dict(kind="get", obj=["U", a], ix=ix)
+            yield dict(kind="get", obj=["M", [["D", [1, 2, 3]], a]], ix=ix)
+        yield dict(kind="iter", comp=a)
+        yield dict(kind="iter", obj=["M", [a, ["D", [4, 5, 6]]]])
+        for leaves in ([a, b], [b, a], [plain, a], [a, plain, b], [a], [["I", [[0, 40]]], b, plain]):
+            for tree in groupings([["L", ["U", p]] for p in leaves])[:2]:
+                yield dict(kind="cat", base=None, how="vorder", tree=tree)
+        yield dict(kind="cat", base=None, how="vorder",
+                   tree=["N", [["L", ["M", [["D", [1, 2, 3]], a]]], ["L", ["M", [["D", [4, 5]], b]]]]])
+
+
 def _compositions(n, kmin=3):
     def rec(rest):
         if rest == 0:
@@ -508,6 +537,9 @@ def _fixed_fc_cases():
     for data in ("I", "MI"):
         for ix in (["s", 1, None, None], ["s", None, -1, None], ["s", 1, -1, None], ["a", [2, 1]], ["i", 1]):
             yield dict(kind="fc", data=data, n=4, seed=20240 + len(data), ix=ix)
+    for data in ("Ir", "MIr", "In"):
+        for ix in (["s", None, None, None], ["s", 1, None, None], ["a", [2, 0, 1]]):
+            yield dict(kind="fc", data=data, n=4, seed=20250 + len(data), ix=ix)
 
 
 def gen_fc(rng: Rng, k):
@@ -591,6 +623,7 @@ def _gen_cases(rng: Rng, tier):
         yield from gen_cat_fresh(rng)
     for _ in range(400 if big else 50):
         yield from gen_cat_permuted(rng)
+    yield from _vorder_cases()
     if big:
         for n in range(3, 7):
             for comp in _compositions(n):
@@ -742,7 +775,25 @@ def _fc_data(case):
             v[k] = np.array([[float(rng.dyadic(-1, 1, 5)) + (k + 1) * x * (1 + y) for y in u] for x in t])
         return FD.IrregularFunctionalData(A.IrregularArgvals(a), V.IrregularValues(v))
 
+    def reorder(fd_):
+        """The same irregular dataset with the values dictionary listing the labels in reverse order."""
+        return FD.IrregularFunctionalData(fd_.argvals, V.IrregularValues({l: fd_.values[l] for l in reversed(list(fd_.values.keys()))}))
+
+    def with_nan(fd_):
+        """Missing values: some entries of every second observation are NaN."""
+        for j, (l, arr) in enumerate(fd_.values.items()):
+            if j % 2 == 0 and arr.size > 3:
+                arr[1] = np.nan
+                arr[-2] = np.nan
+        return fd_
+
     d = case["data"]
+    if d == "Ir":
+        return reorder(irreg())
+    if d == "MIr":
+        return FD.MultivariateFunctionalData([dense(), reorder(irreg())])
+    if d == "In":
+        return with_nan(irreg())
     if d == "I2":
         return irreg2()
     if d == "I":
@@ -871,15 +922,38 @@ def _methods(x):
 _AGAIN = {"iter", "getitem0", "norm", "center", "smooth", "to_long", "normalize", "mean", "inner_product", "concat(x,x)"}
 
 
+def _snap(x):
+    """Bytes of every values / coefficient array of an object (NaN pattern included)."""
+    A, V, FD = cu._fd()
+    if isinstance(x, FD.MultivariateFunctionalData):
+        return [_snap(c) for c in x.data]
+    if isinstance(x, FD.IrregularFunctionalData):
+        return [(int(l), np.asarray(a).tobytes()) for l, a in x.values.items()] + [(int(l), [np.asarray(t).tobytes() for t in d.values()]) for l, d in x.argvals.items()]
+    if isinstance(x, FD.DenseFunctionalData):
+        return [np.asarray(x.values).tobytes()] + [np.asarray(t).tobytes() for t in x.argvals.values()]
+    return [np.asarray(x.coefficients).tobytes(), np.asarray(x.basis.values).tobytes()]
+
+
 def run_fc(case):
     x = _fc_data(case)
     sub, err = _outcome(lambda: x[py_index(case["ix"])])
     if err is not None:
         return dict(select_err=err, results={})
     tw = twin_of(sub)
+    # read-only methods on a subset must not change the parent nor its other subsets (arrays are shared between them)
+    n_par = x.n_obs
+    sib_ix = slice(None, None, -1) if n_par < 2 else slice(0, max(1, n_par - 1))
+    sibling, _ = _outcome(lambda: x[sib_ix])
+    sib_twin = twin_of(sibling) if sibling is not None else None
+    parent_snap = _snap(x)
+    touched = {}
     results = {}
     for name, f in _methods(sub).items():
         rs, es = _outcome(lambda: summarise(f(sub)))
+        now = _snap(x)
+        if now != parent_snap:
+            touched[name] = True
+            parent_snap = now
         rt, et = _outcome(lambda: summarise(f(tw)))
         if name in _AGAIN:
             r2, e2 = _outcome(lambda: summarise(f(sub)))
@@ -911,7 +985,14 @@ def run_fc(case):
             return acc
         got, err = _outcome(loop)
         loops[name] = dict(got=got, err=err)
-    return dict(select_err=None, results=results, labels=labels, plain_pieces=plain, loops=loops)
+    sib = {}
+    if sibling is not None:
+        for name, f in (("noise_variance", lambda o: o.noise_variance()), ("to_long", lambda o: o.to_long()), ("norm", lambda o: o.norm()),
+                        ("values", lambda o: o)):
+            a_, ea = _outcome(lambda: summarise(f(sibling)))
+            b_, eb = _outcome(lambda: summarise(f(sib_twin)))
+            sib[name] = dict(sub=a_, sub_err=ea, twin=b_, twin_err=eb)
+    return dict(select_err=None, results=results, labels=labels, plain_pieces=plain, loops=loops, touched=sorted(touched), sibling=sib)
 
 
 # --------------------------------------------------------------------------
@@ -1159,6 +1240,14 @@ def oracle(case, impl):
         if impl.get("select_err"):
             return [dict(clause="select_content", entry="__getitem__", causes=["raises_" + impl["select_err"]],
                          msg=f"selection {case['ix']} on {case['data']} data with {case['n']} observations raised {impl['select_err']}")]
+        for name in impl.get("touched") or []:
+            vs.append(dict(clause="subset_pure", entry=name.split("(")[0], causes=["parent_changed"],
+                           msg=f"{name} on the subset ({case['data']} data, n_obs={case['n']}, subset {case['ix']}) changed the values / sampling points of the PARENT dataset"))
+        for name, r in (impl.get("sibling") or {}).items():
+            if r["sub_err"] != r["twin_err"] or (r["sub_err"] is None and not _same(_strip_labels(r["sub"]), _strip_labels(r["twin"]))):
+                vs.append(dict(clause="subset_pure", entry=name, causes=["sibling_changed"],
+                               msg=f"after the method calls on the subset {case['ix']} ({case['data']} data, n_obs={case['n']}), {name} of ANOTHER subset of the same parent "
+                                   f"differs from its twin built before those calls"))
         for name, r in (impl.get("loops") or {}).items():
             if impl.get("plain_pieces") is None:
                 break
@@ -1172,7 +1261,7 @@ def oracle(case, impl):
             what = f"{case['data']} data, n_obs={case['n']}, subset {case['ix']}"
             # `MultivariateFunctionalData.normalize` concatenates the single observations `self[0], self[1], …`,
             # whose irregular components keep their labels: the concatenation clause fails inside it
-            via_concat = ((name.startswith("concat") or name == "attr:stand of concat") and case["data"] in ("I", "MI", "I2")) or (name.startswith("normalize") and case["data"] == "MI")
+            via_concat = ((name.startswith("concat") or name == "attr:stand of concat") and case["data"] in ("I", "MI", "I2", "Ir", "MIr", "In")) or (name.startswith("normalize") and case["data"] in ("MI", "MIr"))
             if via_concat:
                 entry = "normalize" if name.startswith("normalize") else "concatenate"
             if r["sub_err"] != r["twin_err"] and via_concat:
